@@ -285,8 +285,8 @@ pub fn format_blame_metadata(
         };
         if let Some(field) = field {
             // Unicode modifier should not be counted as character to allow a consistent padding
-            let unicode_modifier_width =
-                field.as_ref().chars().count() - UnicodeWidthStr::width(field.as_ref());
+            let unicode_modifier_width = (field.as_ref().chars().count())
+                .saturating_sub(UnicodeWidthStr::width(field.as_ref()));
             s.push_str(&format::pad(
                 &field,
                 width + unicode_modifier_width,
